@@ -223,6 +223,26 @@ class Repo:
                 self._index()
                 self._mark_absorbed()
 
+    def mutated_attrs(self):
+        """attribute names that are assigned, or whose value is changed in place (subscript store, del, mutating
+        method call), through some object anywhere in the package: `x.NAME = ..`, `x.NAME[k] = ..`, `x.NAME.append(..)`"""
+        if getattr(self, "_mutated", None) is None:
+            mut = set()
+            MUT = {"append", "add", "appendleft", "extend", "insert", "pop", "popleft", "remove", "clear", "sort", "reverse",
+                   "discard", "update", "setdefault", "popitem", "rotate"}
+            for m in self.modules.values():
+                for n in ast.walk(m.tree):
+                    if isinstance(n, ast.Attribute) and isinstance(n.ctx, (ast.Store, ast.Del)):
+                        mut.add(n.attr)
+                    elif isinstance(n, ast.Subscript) and isinstance(n.ctx, (ast.Store, ast.Del)) and isinstance(n.value, ast.Attribute):
+                        mut.add(n.value.attr)
+                    elif isinstance(n, ast.Call) and isinstance(n.func, ast.Attribute) and n.func.attr in MUT and isinstance(n.func.value, ast.Attribute):
+                        mut.add(n.func.value.attr)
+                    elif isinstance(n, ast.AugAssign) and isinstance(n.target, ast.Attribute):
+                        mut.add(n.target.attr)
+            self._mutated = mut
+        return self._mutated
+
     def _mark_absorbed(self):
         from . import inline as _inl
         # candidates: helpers that were expanded somewhere, and always-expanded helpers nobody refers to any more
@@ -574,10 +594,12 @@ class Repo:
         return out
 
     # ------------------------------------------------------- constant folding
-    def fold(self, module, e, _depth=0):
+    def fold(self, module, e, _depth=0, symbolic=False):
+        """value of a constant expression.  symbolic=True: a constant of an imported non-repo module (`signal.SIGTERM`)
+        folds to the symbol '@signal.SIGTERM' (the evaluator's representation of external constants)"""
         if _depth > 12:
             raise NotConst("too deep")
-        f = lambda x: self.fold(module, x, _depth + 1)
+        f = lambda x: self.fold(module, x, _depth + 1, symbolic)
         if isinstance(e, ast.Constant):
             return e.value
         if isinstance(e, ast.Tuple):
@@ -619,10 +641,13 @@ class Repo:
                 try:
                     m2, e2 = self.const_expr(q)
                 except AnalysisError:
+                    if symbolic and isinstance(e, ast.Attribute) and isinstance(e.value, ast.Name) and e.value.id in module.imports \
+                            and not q.startswith(PKG + ".") and e.attr.isupper():
+                        return "@" + q
                     raise NotConst(q)
                 if e2 is e:
                     raise NotConst("self reference")
-                return self.fold(m2, e2, _depth + 1)
+                return self.fold(m2, e2, _depth + 1, symbolic)
             raise NotConst(ast.unparse(e))
         if isinstance(e, ast.Call):
             q = self.resolve(module, None, e.func)
